@@ -58,7 +58,7 @@ var extraCmds = map[string]func([]string){}
 // use) reach the library, so that they are its first calls. Their scenario keys carry the prefix "F:".
 var (
 	freshMode bool
-	freshRe   = regexp.MustCompile(`sib|poison|near/|norm/|/seq|lead/|/fail/|C07/bad/|hist`)
+	freshRe   = regexp.MustCompile(`sib|shift/|poison|near/|norm/|/seq|lead/|/fail/|C07/bad/|hist`)
 )
 
 func cmdGen(args []string) {
